@@ -258,7 +258,11 @@ pub fn c03(c: &mut Ctx) {
         if ar.ended() {
             c.chk.hit("C03");
             let prop = if o.tag.is_ask() { "C03" } else { "C11" };
-            c.v(prop, "pending-on-dead-actor", o.inv_seq, format!("{:?} (message {:?}) on actor {a} is still pending at quiescence although the actor has ended", o.tag, o.mid));
+            let text = format!("{:?} (message {:?}) on actor {a} is still pending at quiescence although the actor has ended", o.tag, o.mid);
+            c.v(prop, "pending-on-dead-actor", o.inv_seq, text.clone());
+            if o.tag.is_ask() && !h.kills(a).is_empty() {
+                c.v("C06", "ask-left-pending-after-kill", o.inv_seq, text);
+            }
         }
     }
     // a reply that was produced must reach its asker
@@ -921,6 +925,7 @@ pub fn c13(c: &mut Ctx) {
             continue;
         }
         let want: Option<&str> = match o.res() {
+            _ if !o.tag.is_send() => None, // stop()/kill() never record dead letters, whatever they return
             Some(Res::ErrSend) => Some("actor stopped"),
             Some(Res::ErrTimeout { .. }) => Some("timeout"),
             Some(Res::ErrRecv) => Some("reply dropped"),
@@ -998,6 +1003,8 @@ pub fn run_all(h: &History) -> (Vec<Violation>, Checked) {
     c10(&mut c);
     c11(&mut c);
     c13(&mut c);
+    c14_c15(&mut c);
+    c20(&mut c);
     (c.out, c.chk)
 }
 
@@ -1005,4 +1012,281 @@ pub fn run_all(h: &History) -> (Vec<Violation>, Checked) {
 pub fn unused(_: &dyn Fn(&Op) -> bool) {
     let _ = is_stall;
     let _ = is_panic;
+}
+
+// =================================================================================================
+// C14 / C15 (feature deadlock-detection)
+
+/// an ask issued from inside an actor's hook (the only asks deadlock detection tracks)
+fn actor_asks<'x>(h: &'x History) -> Vec<&'x OpRec> {
+    h.ops.iter().filter(|o| o.tag.is_ask() && o.who.actor_ctx().is_some() && o.a.is_some() && !matches!(o.res(), Some(Res::NoHandle) | Some(Res::Unsupported))).collect()
+}
+
+fn parse_cycle(msg: &str) -> Vec<u32> {
+    let line = msg.lines().next().unwrap_or("");
+    let mut out = Vec::new();
+    let b = line.as_bytes();
+    let mut i = 0;
+    while i + 2 < b.len() {
+        if b[i] == b'#' && b[i + 1] == b'a' {
+            let mut j = i + 2;
+            while j < b.len() && b[j].is_ascii_digit() {
+                j += 1;
+            }
+            if let Ok(n) = line[i + 2..j].parse() {
+                out.push(n);
+            }
+            i = j;
+        } else {
+            i += 1;
+        }
+    }
+    out
+}
+
+pub fn c14_c15(c: &mut Ctx) {
+    let h = c.h;
+    let asks = actor_asks(h);
+    let reply_produced_before = |o: &OpRec, s: u64| o.mid.and_then(|m| h.msgs.get(&m)).map(|m| m.hexit.iter().any(|x| x.0 < s)).unwrap_or(false);
+    let callee_dead_before = |o: &OpRec, s: u64| h.actors[o.a.unwrap() as usize].dead_seq() < s;
+    let mut deadlock_panics: Vec<(u64, u32, Vec<u32>)> = Vec::new();
+    for e in h.ev {
+        let (msg, op) = match &e.k {
+            EvKind::Panic { msg, op } if msg.contains("Deadlock detected") => (msg, op),
+            _ => continue,
+        };
+        let s = e.seq;
+        let x = match h.task_of_actor.get(&e.task) {
+            Some(a) => *a,
+            None => {
+                c.v("C15", "non-actor-caller-tracked", s, format!("a deadlock panic was raised on a non-actor task: {msg}"));
+                continue;
+            }
+        };
+        deadlock_panics.push((s, x, parse_cycle(msg)));
+        c.chk.hit("C15");
+        // the ask that panicked
+        let y = op.and_then(|(who, k)| h.op_index.get(&(who, k)).and_then(|v| v.iter().rev().find(|i| h.ops[**i].inv_seq < s).copied())).and_then(|i| h.ops[i].a);
+        let y = match y {
+            Some(y) => y,
+            None => {
+                c.v("C15", "no-edge", s, format!("deadlock panic on actor {x} outside any tracked ask: {msg}"));
+                continue;
+            }
+        };
+        if x == y {
+            continue; // self-ask: the cycle is the ask itself
+        }
+        // search a chain y -> ... -> x
+        let live: Vec<&&OpRec> = asks.iter().filter(|o| o.inv_seq < s && o.end_seq().map(|e| e > s).unwrap_or(true)).collect();
+        let path = |edges: &Vec<&&OpRec>| -> Option<Vec<u64>> {
+            // each actor has at most one directly awaited ask in flight
+            let mut cur = y;
+            let mut used = Vec::new();
+            for _ in 0..=h.actors.len() {
+                let e = edges.iter().find(|o| o.who.actor_ctx() == Some(cur))?;
+                used.push(e.inv_seq);
+                cur = e.a.unwrap();
+                if cur == x {
+                    return Some(used);
+                }
+            }
+            None
+        };
+        let truly: Vec<&&OpRec> = live.iter().copied().filter(|o| !reply_produced_before(o, s) && !callee_dead_before(o, s)).collect();
+        if path(&truly).is_some() {
+            continue; // justified
+        }
+        if let Some(used) = path(&live) {
+            // a chain exists only through edges whose ask is no longer unanswered
+            let bad = live.iter().find(|o| used.contains(&o.inv_seq) && (reply_produced_before(o, s) || callee_dead_before(o, s))).unwrap();
+            let sig = if reply_produced_before(bad, s) { "stale:reply-produced" } else { "stale:callee-dead" };
+            c.v("C15", sig, s, format!("actor {x} panicked with '{}' when asking actor {y}, but the chain back to it runs through the ask of actor {:?} to actor {:?} (message {:?}), which was already answered or destroyed at that moment", msg.lines().next().unwrap_or(""), bad.who.actor_ctx(), bad.a, bad.mid));
+            continue;
+        }
+        // no chain among in-flight asks at all: look at asks that had already finished
+        let finished: Vec<&&OpRec> = asks.iter().filter(|o| o.inv_seq < s && o.end_seq().map(|e| e < s).unwrap_or(false)).collect();
+        let mut all: Vec<&&OpRec> = live.clone();
+        all.extend(finished.iter().copied());
+        // prefer the most recent ask of each actor
+        all.sort_by_key(|o| std::cmp::Reverse(o.inv_seq));
+        if let Some(used) = path(&all) {
+            let bad = all.iter().find(|o| used.contains(&o.inv_seq) && o.end_seq().map(|e| e < s).unwrap_or(false));
+            let sig = match bad.map(|b| (b.res(), b.cancelled)) {
+                Some((Some(Res::ErrTimeout { .. }), _)) => "stale:timed-out",
+                Some((_, Some(_))) => "stale:cancelled",
+                Some((Some(_), _)) => "stale:returned",
+                _ => "no-edge",
+            };
+            c.v("C15", sig, s, format!("actor {x} panicked with '{}' when asking actor {y}, but the only chain back to it uses an ask that had already finished", msg.lines().next().unwrap_or("")));
+        } else {
+            c.v("C15", "no-edge", s, format!("actor {x} panicked with '{}' when asking actor {y}, but no chain of asks leads from {y} back to {x}", msg.lines().next().unwrap_or("")));
+        }
+    }
+    // ---- graph residue at quiescence
+    if conclusive(h) {
+        for (seq, edges) in &h.graphs {
+            // only snapshots taken at phase ends are judged (the first one is the start of the run)
+            if !h.phase_end.iter().any(|(p, _)| *p < *seq && seq - p <= 2) {
+                if *seq <= 3 && !edges.is_empty() {
+                    c.v("C15", "graph-not-empty-at-start", *seq, format!("wait-for graph not empty before the run started: {edges:?}"));
+                }
+                continue;
+            }
+            c.chk.hit("C15");
+            let expect: Vec<(i64, i64)> = asks.iter().filter(|o| o.inv_seq < *seq && o.end_seq().map(|e| e > *seq).unwrap_or(true)).map(|o| (o.who.actor_ctx().unwrap() as i64, o.a.unwrap() as i64)).collect();
+            for e in edges {
+                if e.0 < 0 {
+                    c.v("C15", "non-actor-caller-tracked", *seq, format!("wait-for graph contains a caller that is not an actor: {e:?}"));
+                } else if !expect.contains(e) {
+                    c.v("C15", "residue", *seq, format!("wait-for graph still holds edge {} -> {} at quiescence although no such ask is in flight (in flight: {expect:?})", e.0, e.1));
+                }
+            }
+        }
+    }
+    if !cfg!(feature = "f_deadlock") || !conclusive(h) {
+        return;
+    }
+    // ---- C14: no cycle of directly awaited asks may be left waiting
+    let end = h.last_seq();
+    let pending: Vec<&&OpRec> = asks.iter().filter(|o| o.pending()).collect();
+    for start in &pending {
+        let x = start.who.actor_ctx().unwrap();
+        let mut cur = start.a.unwrap();
+        let mut chain = vec![x, cur];
+        for _ in 0..h.actors.len() {
+            if cur == x {
+                break;
+            }
+            match pending.iter().find(|o| o.who.actor_ctx() == Some(cur)) {
+                Some(n) => {
+                    cur = n.a.unwrap();
+                    chain.push(cur);
+                }
+                None => break,
+            }
+        }
+        c.chk.hit("C14");
+        if cur == x {
+            c.v("C14", "undetected-cycle", end, format!("actors are left waiting on each other forever at quiescence: ask cycle {chain:?} was not detected"));
+            break;
+        }
+    }
+    if let Some(Expect::Cycle(chain)) = &h.sc.expect {
+        c.chk.hit("C14");
+        // some participant must have panicked naming a rotation of the chain
+        let named_ok = deadlock_panics.iter().any(|(_, x, path)| {
+            if chain.len() == 1 {
+                return path.len() == 2 && path[0] == chain[0] && path[1] == chain[0] && *x == chain[0];
+            }
+            if path.len() != chain.len() + 1 || path.first() != path.last() || path[0] != *x {
+                return false;
+            }
+            let pos = match chain.iter().position(|a| *a == path[0]) {
+                Some(p) => p,
+                None => return false,
+            };
+            (0..chain.len()).all(|i| path[i] == chain[(pos + i) % chain.len()])
+        });
+        if deadlock_panics.is_empty() {
+            c.v("C14", "cycle-not-reported", end, format!("the asks of actors {chain:?} close a cycle in every schedule, yet no deadlock panic was raised"));
+        } else if !named_ok {
+            c.v("C14", "cycle-misnamed", deadlock_panics[0].0, format!("deadlock panic names {:?}, expected a rotation of {chain:?} starting at the panicking actor", deadlock_panics[0].2));
+        }
+        for o in asks.iter().filter(|o| o.pending()) {
+            c.v("C14", "participant-left-waiting", o.inv_seq, format!("ask of actor {:?} to actor {:?} is still pending at quiescence", o.who.actor_ctx(), o.a));
+        }
+    }
+}
+
+// =================================================================================================
+// C20 (feature metrics)
+
+pub fn c20(c: &mut Ctx) {
+    let h = c.h;
+    let concl = conclusive(h);
+    for a in 0..h.actors.len() as u32 {
+        let ar = &h.actors[a as usize];
+        let samples: Vec<(&OpRec, u64, u64, u64, u64, u64, u64)> = h
+            .ops
+            .iter()
+            .filter(|o| o.tag == OpTag::Metrics && o.a == Some(a))
+            .filter_map(|o| match o.res() {
+                Some(Res::Metrics { count, avg_ns, max_ns, snap_count, snap_avg_ns, snap_max_ns }) => Some((o, *count, *avg_ns, *max_ns, *snap_count, *snap_avg_ns, *snap_max_ns)),
+                _ => None,
+            })
+            .collect();
+        if samples.is_empty() {
+            continue;
+        }
+        let enters: Vec<u64> = ar.hooks.iter().filter(|(_, _, e)| matches!(e, HookEv::HEnter(_))).map(|x| x.0).collect();
+        let exits: Vec<u64> = ar.hooks.iter().filter(|(_, _, e)| matches!(e, HookEv::HExit(_, out) if *out != Out::Dropped)).map(|x| x.0).collect();
+        let mut prev: Option<u64> = None;
+        // the longest handler body that demonstrably ran to completion, from the script (Burn = real spin)
+        let burn_done = |s: u64| -> u64 {
+            let mut best = 0u64;
+            for (seq, _, e) in &ar.hooks {
+                if *seq >= s {
+                    break;
+                }
+                if let HookEv::HExit(mid, Out::Ok) = e {
+                    if let Some(m) = h.msg_spec.get(mid) {
+                        let us: u64 = m.steps.iter().map(|o| if let Op::Burn(us) = o { *us } else { 0 }).sum();
+                        best = best.max(us * 1000);
+                    }
+                }
+            }
+            best
+        };
+        for (o, count, avg, max, sc, sa, sm) in &samples {
+            let s = o.inv_seq;
+            c.chk.hit("C20");
+            if let Some(p) = prev {
+                if *count < p {
+                    c.v("C20", "count-decreased", s, format!("actor {a}: message_count went from {p} to {count}"));
+                }
+            }
+            prev = Some(*count);
+            let lo = exits.iter().filter(|x| **x < s).count() as u64;
+            let hi = enters.iter().filter(|x| **x < s).count() as u64;
+            if *count < lo || *count > hi {
+                c.v("C20", "count-out-of-bounds", s, format!("actor {a}: message_count = {count}, but {lo} handlers had completed and {hi} had been entered"));
+            }
+            if count != sc || max != sm || avg != sa {
+                c.v("C20", "snapshot-disagrees", s, format!("actor {a}: accessors (count {count}, avg {avg}, max {max}) vs snapshot (count {sc}, avg {sa}, max {sm}) read in the same poll"));
+            }
+            let in_handler = matches!(ar.hook_open_at(s), Some(HookEv::HEnter(_)));
+            if !in_handler {
+                if *avg > *max {
+                    c.v("C20", "avg-exceeds-max", s, format!("actor {a}: avg_processing_time {avg}ns > max_processing_time {max}ns while no handler is running"));
+                }
+                if *count != hi {
+                    c.v("C20", "count-not-entered", s, format!("actor {a}: no handler is running, {hi} user messages had their handler entered, message_count = {count}"));
+                }
+                let need = burn_done(s);
+                if *max < need {
+                    c.v("C20", "max-too-small", s, format!("actor {a}: max_processing_time {max}ns although a handler demonstrably spun for {need}ns"));
+                }
+            }
+        }
+        // after the end: final values stay readable and stable
+        if let Some((js, _, _)) = &ar.joined {
+            let after: Vec<_> = samples.iter().filter(|x| x.0.inv_seq > *js).collect();
+            for w in after.windows(2) {
+                c.chk.hit("C20");
+                if w[0].1 != w[1].1 || w[0].3 != w[1].3 || w[0].2 != w[1].2 {
+                    c.v("C20", "final-values-unstable", w[1].0.inv_seq, format!("actor {a}: metrics read after the actor ended differ between reads ({:?} vs {:?})", (w[0].1, w[0].2, w[0].3), (w[1].1, w[1].2, w[1].3)));
+                }
+            }
+        }
+        let _ = concl;
+    }
+    // a Metrics read that found no usable handle although the model says a strong one was in the slot
+    for o in h.ops.iter().filter(|o| o.tag == OpTag::Metrics) {
+        if let (Some(Res::Unsupported), true) = (o.res(), cfg!(feature = "f_metrics")) {
+            if o.via == "ref" {
+                c.v("C20", "metrics-unreadable", o.inv_seq, "metrics could not be read through a strong reference".into());
+            }
+        }
+    }
 }
